@@ -37,7 +37,49 @@ def run_case(case: Dict[str, Any]) -> CaseResult:
 
 
 @st.composite
+def _fan(draw: Any, tier: str) -> Dict[str, Any]:
+    """Independent roots, each with a chain below it; one or two roots / inner nodes fail while their siblings
+    are in flight (max_concurrency >= 2)."""
+    from .. import gen
+
+    k = draw(st.integers(2, 4))
+    depth = draw(st.integers(1, 2))
+    fns: Dict[str, Any] = {}
+    body = []
+    sites = []
+    n = 0
+    for i in range(k):
+        prev = None
+        for d in range(depth + 1):
+            fn = f"f{n}"
+            fns[fn] = {"kind": "term", "res": draw(st.sampled_from(list(gen.RES if d else ("thread", "async-thread")))),
+                       "prio": draw(st.integers(-2, 3))}
+            if draw(st.integers(0, 7)) == 0:
+                fns[fn]["seq"] = True
+            args = [] if prev is None else [["v", prev]]
+            body.append({"k": "call", "fn": fn, "site": gen.site(n), "mark": True, "args": args, "kwargs": {},
+                         "active": None, "unpack": None, "tags": [], "out": f"v{n}"})
+            sites.append((gen.site(n), d))
+            prev = f"v{n}"
+            n += 1
+    P = {"name": "P", "params": [], "fns": fns, "body": body, "ret": ["T", [["v", f"v{i}"] for i in range(n)]]}
+    cand = [s for s, d in sites if d < depth]
+    failing = draw(st.lists(st.sampled_from(cand), min_size=1, max_size=2, unique=True))
+    mode = draw(st.sampled_from(["ctl", "ctl", "ctl-ex", "free"]))
+    c: Dict[str, Any] = {"prog": P, "mc": draw(st.integers(2, 4)), "async": draw(st.booleans()), "mode": mode, "failing": failing}
+    if mode == "ctl":
+        c["choices"] = draw(st.lists(st.integers(0, 2**16), max_size=12))
+    elif mode == "ctl-ex":
+        c["max_leaves"] = sc.MAX_LEAVES[tier]
+    if draw(st.integers(0, 3)) == 0:
+        c["profile"] = True
+    return c
+
+
+@st.composite
 def _cases(draw: Any, tier: str) -> Dict[str, Any]:
+    if draw(st.booleans()):
+        return draw(_fan(tier))
     c = draw(sc.sched_case(tier=tier, modes=("ctl", "ctl", "free", "ctl-ex"), min_sites=2, max_sites=9,
                            wide=draw(st.integers(0, 3)) > 0, min_mc=draw(st.sampled_from([1, 2, 2, 3])), flags=draw(st.integers(0, 3)) == 0, sel_rate=0.15,
                            seq_rate=0.15, prio=(-2, 4), faults=2, max_mc=4, profile_rate=0.25))
